@@ -1467,7 +1467,7 @@ def Filter.action (f : Filter) : Option RAction :=
   | none, none => none
 
 theorem buildAction_action (o : BuildOpts) (a : RAction) (ps : List Policy) :
-    (optFilter o.forTCP (buildAction o a ps)).map Filter.action = if ps.isEmpty then [] else [some a] := by
+    (optFilter o.shapeTCP (buildAction o a ps)).map Filter.action = if ps.isEmpty then [] else [some a] := by
   unfold buildAction
   by_cases h : ps = []
   · simp [h, optFilter]
@@ -1494,7 +1494,7 @@ theorem filter_order (o : BuildOpts) (ps : List Policy) :
   split <;> split <;> split <;> simp
 
 theorem eval_log_filter (o : BuildOpts) (req : Request) (ps : List Policy) :
-    evalFilters (optFilter o.forTCP (buildAction o .log ps)) req = true := by
+    evalFilters (optFilter o.shapeTCP (buildAction o .log ps)) req = true := by
   unfold buildAction
   by_cases h : ps.isEmpty = true
   · simp [h, optFilter, evalFilters]
@@ -2017,7 +2017,8 @@ theorem custom_correct_compiled (o : BuildOpts) (c : CustomOpts) (ps : List Poli
         exact ⟨hmany.2 h.1, h.2⟩
       unfold evalGs
       rw [List.all_flatMap]
-      have hper : ∀ pr, (if c.providers.contains pr = true then customFilters o cps pr
+      have hper : ∀ pr, (if c.providers.contains pr = true then
+              (if (o.shapeTCP && c.httpProviders.contains pr) = true then [] else customFilters o cps pr)
             else [GFilter.rbac (badCustomFilter o cps pr)]).all (evalG · req) =
           !(!c.providers.contains pr &&
             (cps.filter fun p => p.provider == pr && !p.dryRun).any (compiledPolicyMatch o false req)) := by
@@ -2025,8 +2026,10 @@ theorem custom_correct_compiled (o : BuildOpts) (c : CustomOpts) (ps : List Poli
         by_cases hk : c.providers.contains pr = true
         · have := eval_customFilters o cps pr req
           simp only [evalGs] at this
-          rw [if_pos hk, this, hk]
-          rfl
+          rw [if_pos hk, hk]
+          split
+          · rfl
+          · rw [this]; rfl
         · have hk' : c.providers.contains pr = false := by simpa using hk
           simp only [hk', Bool.false_eq_true, if_false, List.all_cons, List.all_nil, Bool.and_true,
             Bool.not_false, Bool.true_and]
